@@ -70,7 +70,7 @@ def geo_data(tier, seed, inputs=None, name="geo", opts=1 | 2 | 8, flags=8, profi
     cache = os.path.join(wd, f"{name}_{key}.pkl")
     if use_cache and inputs is None and os.path.exists(cache):
         try:
-            return pickle.load(open(cache, "rb"))
+            return _register_missing(pickle.load(open(cache, "rb")))
         except Exception:
             pass
     custom = inputs is not None
@@ -116,6 +116,7 @@ def geo_data(tier, seed, inputs=None, name="geo", opts=1 | 2 | 8, flags=8, profi
                 rec["model"][gi] = T.decode_model_cell(m, metas[k]["e"]) if m.get("ok") else None
                 if m.get("all"):
                     rec.setdefault("model_all", {})[gi] = T.decode_model_cell(m["all"], metas[k]["e"])
+        rec["model_missing"] = [gi for (kk, gi), _ in jobs if kk == k and gi not in rec["model_raw"]]
         recs.append(rec)
     data = {"recs": recs, "t_impl": t_impl, "t_model": t_model, "n_jobs": len(jobs)}
     if not custom and use_cache:
@@ -123,6 +124,15 @@ def geo_data(tier, seed, inputs=None, name="geo", opts=1 | 2 | 8, flags=8, profi
             if fn.startswith(name + "_") and fn.endswith(".pkl"):
                 os.remove(os.path.join(wd, fn))
         pickle.dump(data, open(cache, "wb"))
+    return _register_missing(data)
+
+
+def _register_missing(data):
+    """a requested model cell without a (parsable) result is never skipped silently"""
+    miss = [(rec["inp"].get("family"), rec.get("model_missing")) for rec in data["recs"] if rec.get("model_missing")]
+    if miss:
+        C.PENDING.append(("corr:model-output-missing", f"the exact model produced no result for {sum(len(m) for _, m in miss)} requested cells "
+                          f"(families {sorted({str(f) for f, _ in miss})[:5]}): driver / parsing problem, these cells were not compared", {"cells": str(miss)[:500]}))
     return data
 
 
